@@ -60,3 +60,88 @@ pub fn translate_wildcards(
 ) -> (Vec<usize>, Vec<(usize, Vec<usize>)>) {
     super::gen_projection::verif_wildcards(cols, decls, instances)
 }
+
+// ---------------------------------------------------------------------------------------------
+// trace of the pipeline splits done by `pq::anchor::extract_atomic`
+
+thread_local! {
+    static SPLIT_TRACE: std::cell::RefCell<Option<Vec<serde_json::Value>>> = const { std::cell::RefCell::new(None) };
+}
+
+/// Start recording split events on this thread.
+pub fn split_trace_start() {
+    SPLIT_TRACE.with(|t| *t.borrow_mut() = Some(Vec::new()));
+}
+
+/// Stop recording and return the events recorded since `split_trace_start`.
+pub fn split_trace_take() -> Vec<serde_json::Value> {
+    SPLIT_TRACE.with(|t| t.borrow_mut().take().unwrap_or_default())
+}
+
+fn instances_of(ctx: &AnchorContext, pipeline: &[super::pq::ast::SqlTransform]) -> serde_json::Value {
+    use super::pq::ast::SqlTransform as T;
+    let mut out = serde_json::Map::new();
+    for t in pipeline {
+        let riid = match t {
+            T::From(r) | T::Join { with: r, .. } => Some(r),
+            T::Union { bottom, .. } | T::Except { bottom, .. } | T::Intersect { bottom, .. } => Some(bottom),
+            _ => None,
+        };
+        if let Some(riid) = riid {
+            if let Some(inst) = ctx.relation_instances.get(riid) {
+                let cids: Vec<_> = inst.table_ref.columns.iter().map(|(_, c)| *c).collect();
+                let key = serde_json::to_value(riid).map(|v| v.to_string()).unwrap_or_default();
+                out.insert(key, serde_json::json!({ "cids": cids, "source": inst.table_ref.source }));
+            }
+        }
+    }
+    serde_json::Value::Object(out)
+}
+
+fn computes_of(ctx: &AnchorContext) -> serde_json::Value {
+    use super::pq::context::ColumnDecl;
+    let mut ids: Vec<_> = ctx.column_decls.iter().filter(|(_, d)| matches!(d, ColumnDecl::Compute(_))).map(|(c, _)| *c).collect();
+    ids.sort_by_key(|c| c.get());
+    let list: Vec<_> = ids
+        .iter()
+        .filter_map(|c| match &ctx.column_decls[c] {
+            ColumnDecl::Compute(c) => serde_json::to_value(c.as_ref()).ok(),
+            _ => None,
+        })
+        .collect();
+    serde_json::Value::Array(list)
+}
+
+pub(super) fn trace_split(
+    ctx: &AnchorContext,
+    before: &[super::pq::ast::SqlTransform],
+    output: &[rq::CId],
+    preceding: Option<&[super::pq::ast::SqlTransform]>,
+    atomic: &[super::pq::ast::SqlTransform],
+) {
+    SPLIT_TRACE.with(|t| {
+        if let Some(trace) = t.borrow_mut().as_mut() {
+            trace.push(serde_json::json!({
+                "event": "split",
+                "pipeline": before,
+                "output": output,
+                "instances": instances_of(ctx, before),
+                "computes": computes_of(ctx),
+                "preceding": preceding,
+                "atomic": atomic,
+            }));
+        }
+    });
+}
+
+pub(super) fn trace_anchored(ctx: &AnchorContext, atomic: &[super::pq::ast::SqlTransform]) {
+    SPLIT_TRACE.with(|t| {
+        if let Some(trace) = t.borrow_mut().as_mut() {
+            trace.push(serde_json::json!({
+                "event": "anchored",
+                "atomic": atomic,
+                "instances": instances_of(ctx, atomic),
+            }));
+        }
+    });
+}
